@@ -863,8 +863,7 @@ func cleanupServer() {
 func runRender(in Input) lib.Result {
 	srvOnce.Do(setupServer)
 	if srvErr != nil {
-		// the address-space cap of the driver can be too small for the five Badger value logs: skip, do not alarm
-		return lib.Result{Feat: map[string]interface{}{"kind": "render", "render_skipped": srvErr.Error()[:40]}}
+		return lib.Result{Crash: "harness: cannot set up the server: " + srvErr.Error()}
 	}
 	q := url.Values{}
 	q.Set("from", string(in.From))
